@@ -17,6 +17,7 @@ import (
 	"fmt"
 	"go/ast"
 	"go/format"
+	"go/parser"
 	"go/token"
 	"go/types"
 	"os"
@@ -61,6 +62,7 @@ func run(repo, hooks, out string) error {
 		return err
 	}
 	nsites := 0
+	publishHooked := false
 	var siteList []string
 	for _, p := range pkgs {
 		if len(p.Errors) > 0 {
@@ -120,6 +122,50 @@ func run(repo, hooks, out string) error {
 					return true
 				})
 			}
+			// 2b. publish hook at the top of (*P2PNode).Publish
+			if p.PkgPath == "github.com/shutter-network/rolling-shutter/rolling-shutter/p2p" {
+				for _, d := range f.Decls {
+					fd, ok := d.(*ast.FuncDecl)
+					if !ok || fd.Name.Name != "Publish" || fd.Recv == nil || len(fd.Recv.List) != 1 || fd.Body == nil {
+						continue
+					}
+					st, ok := fd.Recv.List[0].Type.(*ast.StarExpr)
+					if !ok {
+						continue
+					}
+					if id, ok := st.X.(*ast.Ident); !ok || id.Name != "P2PNode" {
+						continue
+					}
+					if len(fd.Type.Params.List) != 3 || len(fd.Recv.List[0].Names) != 1 {
+						return fmt.Errorf("(*P2PNode).Publish has an unexpected signature")
+					}
+					var names []string
+					for _, fl := range fd.Type.Params.List {
+						for _, n := range fl.Names {
+							names = append(names, n.Name)
+						}
+					}
+					if len(names) != 3 {
+						return fmt.Errorf("(*P2PNode).Publish has an unexpected parameter list")
+					}
+					recv := fd.Recv.List[0].Names[0].Name
+					hook, err := parser.ParseExpr(fmt.Sprintf("func() { }"))
+					_ = hook
+					if err != nil {
+						return err
+					}
+					stmt := &ast.IfStmt{
+						Cond: &ast.BinaryExpr{X: &ast.SelectorExpr{X: ast.NewIdent("verifhook"), Sel: ast.NewIdent("Publish")}, Op: token.NEQ, Y: ast.NewIdent("nil")},
+						Body: &ast.BlockStmt{List: []ast.Stmt{&ast.ReturnStmt{Results: []ast.Expr{&ast.CallExpr{
+							Fun:  &ast.SelectorExpr{X: ast.NewIdent("verifhook"), Sel: ast.NewIdent("Publish")},
+							Args: []ast.Expr{ast.NewIdent(recv), ast.NewIdent(names[0]), ast.NewIdent(names[1]), ast.NewIdent(names[2])},
+						}}}}},
+					}
+					fd.Body.List = append([]ast.Stmt{stmt}, fd.Body.List...)
+					changed = true
+					publishHooked = true
+				}
+			}
 			if !changed {
 				continue
 			}
@@ -139,6 +185,9 @@ func run(repo, hooks, out string) error {
 		}
 	}
 
+	if !publishHooked {
+		return fmt.Errorf("(*P2PNode).Publish not found: cannot install the publish hook")
+	}
 	// 3. virtual hook files
 	err = filepath.Walk(hooks, func(path string, info os.FileInfo, err error) error {
 		if err != nil || info.IsDir() || !strings.HasSuffix(path, ".go") {
